@@ -4,7 +4,7 @@
 # of coq/ (PCFG_COQ) so that this worktree's generated files are not touched; the last line of each run goes
 # to RESULTS.txt.  m* must end in VIOLATION, h* in OK.  About 30 s per run.
 #   sh docs/tie_tests/T16/run_all.sh [name-prefix ...]
-V=/tmp/vb_T16
+V=$(cd "$(dirname "$0")/../../.." && pwd)
 SC=/tmp/sc_T16_all
 CQ=/tmp/sc_T16_all_coq
 OUT=/tmp/sc_T16_out
@@ -13,6 +13,7 @@ props_of() {
   case $1 in
     m01*|m02*|m10*) echo "C01";;
     m03*|m09*) echo "C01 C02";;
+    m15*|m17*) echo "C01";;
     h*) echo "C01 C02 C08";;
     *) echo "C08";;
   esac
